@@ -463,6 +463,37 @@ fn collect_unchanged_words<C: CompareBytes, S: BuildHasher>(
     ));
 }
 
+/// Verification hooks: expose the private matching functions. `collect_unchanged_words()`
+/// is run on two tokenized inputs with a fresh `WordComparator` (fresh `RandomState`).
+#[cfg(jj_vcs_jj_verif)]
+pub fn verif_collect_unchanged_words(
+    left: &[u8],
+    left_ranges: &[Range<usize>],
+    right: &[u8],
+    right_ranges: &[Range<usize>],
+    compare: impl CompareBytes,
+) -> Vec<(usize, usize)> {
+    let comp = WordComparator::new(compare);
+    let left_source = DiffSource::new(left, left_ranges, &comp);
+    let right_source = DiffSource::new(right, right_ranges, &comp);
+    let mut found_positions = Vec::new();
+    collect_unchanged_words(
+        &mut found_positions,
+        &left_source.local(),
+        &right_source.local(),
+        &comp,
+    );
+    found_positions
+        .into_iter()
+        .map(|(left_pos, right_pos)| (left_pos.0, right_pos.0))
+        .collect()
+}
+
+#[cfg(jj_vcs_jj_verif)]
+pub fn verif_find_lcs(input: &[usize]) -> Vec<(usize, usize)> {
+    find_lcs(input)
+}
+
 fn collect_unchanged_words_lcs<C: CompareBytes, S: BuildHasher>(
     found_positions: &mut Vec<(WordPosition, WordPosition)>,
     left: &LocalDiffSource,
